@@ -389,7 +389,11 @@ func buildProgram(dir, src string) (string, error) {
 	os.WriteFile(filepath.Join(dir, "go.mod"), []byte("module progb\n\ngo 1.23\n"), 0o644)
 	os.WriteFile(filepath.Join(dir, "main.go"), []byte(src), 0o644)
 	bin := filepath.Join(dir, "prog.out")
-	cmd := exec.Command(bLlgo, "build", "-o", bin, ".")
+	// -O0: LLVM 14's optimiser, with the opaque pointers this sandbox has to force
+	// on, merges getelementptr instructions that differ only in their source
+	// element type (seen in runtime.typehash: the array length read from the
+	// TFlag field's address); such miscompilations are the sandbox's, not llgo's
+	cmd := exec.Command(bLlgo, "build", "-O0", "-o", bin, ".")
 	cmd.Dir = dir
 	cmd.Env = bEnv(bCache)
 	out, err := cmd.CombinedOutput()
@@ -551,7 +555,8 @@ func (prop) ExtraPhase(tier string, seed uint64, deadline time.Time) (*driver.Ex
 	fans := map[string]int{}
 	runs := 0
 	var sample any
-	for pi := 0; pi < nprog && time.Now().Before(deadline); pi++ {
+	// however loaded the machine is, a minimum is always run: 3 programs, 30 schedules each
+	for pi := 0; pi < nprog && (pi < 3 || time.Now().Before(deadline)); pi++ {
 		ch := sim.NewChoices(sim.RunSeed(seed^0xb1a7e5, uint64(pi)))
 		var sc *Scenario
 		if pi%4 == 3 {
@@ -566,7 +571,7 @@ func (prop) ExtraPhase(tier string, seed uint64, deadline time.Time) (*driver.Ex
 		if err != nil {
 			return nil, fmt.Errorf("layer B program %d: %v", pi, err)
 		}
-		for k := 0; k < nsched && time.Now().Before(deadline); k++ {
+		for k := 0; k < nsched && (k < 30 || time.Now().Before(deadline)); k++ {
 			ss := sim.RunSeed(seed^0x5c4ed, uint64(pi*100000+k))
 			sp := []int{0, 0, 30, 200}[k%4]
 			r := runSchedule(bin, ss, sp)
